@@ -8,7 +8,7 @@
    [collect_item] is the collector's handling of one piece after the clock was read
    (Collector._collect -> _TranslatingCallback -> _IntervaledCallback -> Generate/VerifyCallback). *)
 From Coq Require Import Lia Sorted.
-From Torf Require Import Base Pipeline PipelineProofs FlowProofs LastCallProofs PipeExplore PipeExploreProofs PipeConfigs.
+From Torf Require Import Base Pipeline PipelineProofs FlowProofs LastCallProofs VerifyTrueProofs LastCallVerify PipeExplore PipeExploreProofs PipeConfigs.
 Open Scope Z_scope.
 
 (* under every schedule, thread count, interval and input: the done counter of every report lies
@@ -28,6 +28,16 @@ Theorem C12_last_report_is_total : forall c s hs,
   exists pre idx e, s_calls s = pre ++ [(cf_total c, idx, e)].
 Proof. exact last_call_reports_total. Qed.
 Print Assumptions C12_last_report_is_total.
+
+(* the same for VERIFICATION: for every schedule, number of hashers, reporting interval and clock, a verification
+   run with a progress callback that returns True made its last report with done = total *)
+Theorem C12_last_report_is_total_verify : forall c s expd,
+  reach c s -> cf_verify c = Some expd -> has_user_cb c = true ->
+  cf_total c = zlen expd -> zlen (yielded (cf_items c)) = cf_total c -> 0 < cf_total c ->
+  s_result s = Some ResTrue ->
+  exists pre idx e, s_calls s = pre ++ [(cf_total c, idx, e)].
+Proof. exact last_call_reports_total_verify. Qed.
+Print Assumptions C12_last_report_is_total_verify.
 
 (* what one collected piece adds: nothing, or one batch carrying the current counter value;
    several entries only if all of them are errors *)
